@@ -74,6 +74,14 @@ def extended(confirm_sets, tag=b''):
     return sim.blocks
 
 
+def extended_burn():
+    '''base + one block whose only transaction is a coinbase paying an unspendable script.'''
+    u = mpuniverse.universe()
+    sim = u.sim.copy(b'')
+    sim.add_block([sim.cb('F')], 'burn')
+    return sim.blocks
+
+
 def forked(depth, branch_sets, tag=b'Y', over=None):
     '''Fork `depth` below the tip of `over` (default base) and grow blocks holding the named txs.'''
     u = mpuniverse.universe()
@@ -180,6 +188,20 @@ def scenarios():
         ev_state('block(t1)', blocks=extended([('t1',)]), names=('t2',)), T, T, T,
         ev_state('fork:parent-back-in-mempool', blocks=forked(1, [(), ()], over=extended([('t1',)])),
                  names=('t1', 't2')), T, T, T, T])
+    # a subscription whose history read is in flight while a tx paying that script enters
+    # the mempool (the client is not registered yet, so no notification corrects the reply)
+    out['subscribe-then-mempool'] = dict(subs={'c1': ('A',), 'c2': ()}, script=lambda: [
+        ev_request('c2', 'blockchain.scripthash.subscribe', [sh('B')], tag='sub'),
+        ev_state('mempool+t1', names=('t1',)), T, T, T, T])
+    # a block that touches no script hash at all (coinbase paying only OP_FALSE OP_RETURN)
+    out['untouched-block'] = dict(script=lambda: [
+        ev_state('burn-block+t6', blocks=extended_burn(), names=('t6',)), T, T, T, T])
+    # the only history anybody reads is in flight across the block that changes it; nothing
+    # else is cached or subscribed, so no other eviction happens at that notification
+    out['lonely-read'] = dict(subs={'c1': (), 'c2': ()}, mempool0=('t1',), no_warm=True,
+                              script=lambda: [
+        ev_request('c2', 'blockchain.scripthash.get_history', [sh('B')]),
+        ev_state('block(t1)', blocks=extended([('t1',)]), names=()), T, T, T, T])
     # a history read in flight across the block that changes it, then a fresh subscription
     out['late-subscribe'] = dict(subs={'c1': ('A',), 'c2': ()}, mempool0=('t1',), script=lambda: [
         ev_request('c2', 'blockchain.scripthash.get_history', [sh('A')]),
@@ -410,6 +432,9 @@ def c10_scenarios():
         warm.append(('c2', 'blockchain.transaction.id_from_pos', [6, pos, False]))
     for name, scn in scenarios().items():
         scn = dict(scn)
+        if scn.get('no_warm'):
+            out[name] = scn
+            continue
         scn['warm'] = list(scn.get('warm', ())) + warm
         inner = scn['script']
 
